@@ -216,6 +216,10 @@ macro_rules! with_kind {
                 let $m = Tuple(($s as u8, u7($a), u7($b)));
                 $body
             }
+            K_OVER => {
+                let $m = Overrider(($s as u8, u7($a), u7($b)));
+                $body
+            }
             _ => {
                 let $m = raw($s, $a, $b);
                 $body
@@ -385,6 +389,7 @@ pub fn exec(tag: i64, inp: &[i64]) -> Vec<i64> {
                 K_STRUCT => from_bytes_obs::<StructuredShortMessage>(s, a, b),
                 K_GETTERS => from_bytes_obs::<Getters>(s, a, b),
                 K_TUPLE => from_bytes_obs::<Tuple>(s, a, b),
+                K_OVER => from_bytes_obs::<Overrider>(s, a, b),
                 _ => from_bytes_obs::<RawShortMessage>(s, a, b),
             }
         }
@@ -488,6 +493,7 @@ pub fn exec(tag: i64, inp: &[i64]) -> Vec<i64> {
                         K_STRUCT => convert_obs::<_, StructuredShortMessage>(&m, conv),
                         K_GETTERS => convert_obs::<_, Getters>(&m, conv),
                         K_TUPLE => convert_obs::<_, Tuple>(&m, conv),
+                        K_OVER => convert_obs::<_, Overrider>(&m, conv),
                         _ => convert_obs::<_, RawShortMessage>(&m, conv),
                     }
                 }
@@ -553,7 +559,7 @@ pub fn exec(tag: i64, inp: &[i64]) -> Vec<i64> {
     }
 }
 
-const KINDS: [i64; 4] = [K_RAW, K_STRUCT, K_GETTERS, K_TUPLE];
+const KINDS: [i64; 5] = [K_RAW, K_STRUCT, K_GETTERS, K_TUPLE, K_OVER];
 const BND: [i64; 10] = [0, 1, 7, 8, 63, 64, 119, 120, 121, 127];
 
 /// all status bytes x boundary data bytes, every type x all d1, plus seeded random triples;
@@ -689,6 +695,39 @@ pub fn gen_ctor_records(r: &mut Rng, em: &mut Emitter) {
                 em.emit_k("constructors/named", 60, vec![k, idx, x, y, z]);
             }
         }
+    }
+}
+
+/// Cross-target records (see newtypes::gen_cross): bytes, accessors, conversions, constructors
+/// with 14-bit arguments.
+pub fn gen_cross(em: &mut Emitter) {
+    for &k in &KINDS {
+        for s in (0..256i64).step_by(23).chain([127, 128, 176, 224, 240, 241, 242, 247, 248, 255]) {
+            for &(a, b) in &[(0i64, 0i64), (127, 127), (1, 64), (120, 5)] {
+                em.emit_k("cross/from_bytes", 10, vec![k, s, a, b]);
+                if s >= 128 {
+                    em.emit_k("cross/accessors", 20, vec![k, s, a, b]);
+                    em.emit_k("cross/conversions", 14, vec![k, s, a, b]);
+                }
+            }
+        }
+    }
+    for &k in &[K_RAW, K_STRUCT] {
+        for &v in &[0i64, 1, 37, 127, 128, 129, 255, 256, 8191, 8192, 9472, 16256, 16383] {
+            em.emit_k("cross/14-bit constructors", 60, vec![k, 6, 3, v, 0]);
+            em.emit_k("cross/14-bit constructors", 60, vec![k, 9, v, 0, 0]);
+        }
+        for idx in 0..19i64 {
+            em.emit_k("cross/named constructors", 60, vec![k, idx, 5, 64, 65]);
+        }
+        for which in 0..3 {
+            for code in [128i64, 176, 224, 240, 242, 247, 248, 255] {
+                em.emit_k("cross/generic constructors", 61, vec![k, which, code, 9, 1, 64]);
+            }
+        }
+    }
+    for v in 0..128i64 {
+        em.emit_k("cross/quarter frames", 12, vec![v]);
     }
 }
 
